@@ -2,13 +2,13 @@
 # tools/seed_tests.sh <patch.diff>  — run the repository's own test-suite on a scratch copy of /repo with the patch applied
 # (one pytest process per tests/<dir>, each in its own scratch cwd because the tests write fixed file names into the cwd)
 # and report whether all 75 baseline-stable tests (/root/.vp/BASELINE.json stable_pass) still pass.
-P="$(readlink -f "$1")"
+P=""; [ -n "$1" ] && P="$(readlink -f "$1")"   # no argument: the unchanged tree (baseline with the fix commits)
 T=$(mktemp -d /tmp/seedtests_XXXX)
 trap 'rm -rf "$T"' EXIT
 mkdir -p "$T/src"
 cp -r /repo/PyMatterSim /repo/tests "$T/src/"
 find "$T/src" -name __pycache__ -prune -exec rm -rf {} +
-( cd "$T/src" && patch -p1 -s --no-backup-if-mismatch < "$P" ) || { echo "TESTS PATCH-FAILED"; exit 2; }
+[ -z "$P" ] || ( cd "$T/src" && patch -p1 -s --no-backup-if-mismatch < "$P" ) || { echo "TESTS PATCH-FAILED"; exit 2; }
 for d in dynamics neighbors reader static utils writer; do
   mkdir -p "$T/run_$d"; ln -s "$T/src/PyMatterSim" "$T/run_$d/PyMatterSim"; ln -s "$T/src/tests" "$T/run_$d/tests"
   ( cd "$T/run_$d" && PYTHONDONTWRITEBYTECODE=1 timeout 3000 /venv/bin/python -m pytest -q -p no:cacheprovider --timeout=900 \
